@@ -316,6 +316,11 @@ type c20Reject struct {
 }
 
 var c20Rejects = []c20Reject{
+	{`option (o.message_cfg).file_only.i = 1;`, "a path component restricted to files (targets) used on a message"},
+	{`option (o.message_cfg).child.file_only.i = 1;`, "a deeper path component restricted to files used on a message"},
+	{`option (o.message_cfg).(o.cfg_ext_file_only).i = 1;`, "an extension path component restricted to files used on a message"},
+	{`option (o.message_cfg) = { file_only { i: 1 } };`, "a literal field restricted to files used on a message"},
+	{`option (o.message_cfg).file_only = { i: 1 };`, "a final path component restricted to files used on a message"},
 	{`option (o.message_cfg) = { I: 1 };`, "field name with wrong capitalisation"},
 	{`option (o.message_cfg) = { S: "x" };`, "field name with wrong capitalisation (string)"},
 	{`option (o.message_cfg) = { G_ { gi: 1 } };`, "unknown group spelling"},
